@@ -176,7 +176,7 @@ class Sim:
             snap, r = self.roots.get(rid, (None, None))
             topb = self.store.get(r["Link"]) if r and r.get("Link") else None
             self.facts["loads"].append((idx, "loadord", ob["outcome"], rid, t, len(ob["loads"]), topb))
-        elif op == "load":
+        elif op in ("load", "loadnc"):
             rid, tid = int(t[1]), int(t[2])
             snap, r = self.roots.get(rid, (None, None))
             topb = None
